@@ -34,9 +34,10 @@ SHRINK = {"text": ["src"], "list": ["cfg.enable", "cfg.disable", "cuts"], "keys"
 
 ALPHABET = [
     "", " ", "\t", ">", "> ", "> a", "> a|b", "> -|-", "a|b", "-|-", "|a|", "- a", "-", "- a|b", "  -|-", "1.", "1. a",
-    "# h", "#", "```", "~~~", "    c", "[a]: /u", "[a]:", "<div>", "<!--", "===", "---", "a", "  a", "> - a", "> ```",
+    "# h", "#", "```", "~~~", "``` \x0b", "~~~ &#10;", "    c", "[a]: /u", "[a]:", "<div>", "<!--", "===", "---", "a", "  a", "> - a", "> ```",
     "> #", "> [a]: /u", "* * *", "> <div>", "> 1.", ">     c",
 ]
+INLINE_ALPHABET = ["*", "**", "_", "~~", "[", "]", "](u)", "![", "`", "a", " ", "<", ">", "&", "\\", "\n", "<http://x.y>", "(", ")", "\"", "&#", ";", ":", "!"]
 ENUM_CFGS = [
     C.simple("commonmark", enable=["table"]),
     C.simple("js-default"),
@@ -86,6 +87,23 @@ def enumerate_cases(tier: str, shard: int, nshards: int):
                 continue
             body = "\n".join(combo)
             yield {"kind": "enum", "src": body}
+    # inline boundary shapes: every concatenation of <= m tokens of an inline alphabet
+    m = 4 if tier == "quick" else 5
+    for k in range(1, m + 1):
+        for combo in itertools.product(INLINE_ALPHABET, repeat=k):
+            idx += 1
+            if idx % nshards != shard:
+                continue
+            yield {"kind": "enum", "src": "".join(combo)}
+    # the pathological families of C20 at moderate sizes, run under a deterministic call budget
+    from .c20 import F as FAMILIES
+
+    for name in sorted(FAMILIES):
+        for n in (30, 120) if tier == "quick" else (30, 120, 600):
+            idx += 1
+            if idx % nshards != shard:
+                continue
+            yield {"kind": "family", "family": name, "n": n}
     if shard == 0:
         for bad in (None, 1, 1.5, ["a"], {"a": 1}, ("x",)):
             yield {"kind": "typeerror", "arg": "src", "value": repr(bad)}
@@ -132,6 +150,26 @@ def check(case) -> Res:
         toks = None
         res.nt = src.count("\n") >= 1
         res.cls.append("enum")
+        return res
+    if kind == "family":
+        from .c20 import F as FAMILIES
+
+        src = FAMILIES[case["family"]](case["n"])
+        limit = 20000 * (len(src) + 50)
+        for i, md in _enum_mds().items():
+            cc = CallCounter(limit)
+            try:
+                cc.run(md.render, src)
+            except BudgetExceeded:
+                res.fail("nontermination:call-budget", f"render cfg#{i} of family {case['family']} (n={case['n']}, {len(src)} characters) exceeded {limit} library calls")
+                break
+            except RecursionError as e:
+                res.fail("exception:RecursionError", f"family {case['family']} n={case['n']}: {e!r}")
+                break
+            except Exception as e:  # noqa: BLE001
+                res.fail(_sig(e), f"family {case['family']} n={case['n']} cfg#{i}: {type(e).__name__}: {e}")
+        res.nt = True
+        res.cls.append("family")
         return res
     if kind == "typeerror":
         from markdown_it import MarkdownIt
@@ -233,9 +271,11 @@ def confirm_hang(case):
 def evidence_extra(tier, tot):
     n = budget(tier)["enum_lines"]
     total = sum(len(ALPHABET) ** k for k in range(1, n + 1))
+    m = 4 if tier == "quick" else 5
+    total_inline = sum(len(INLINE_ALPHABET) ** k for k in range(1, m + 1))
     return {
-        "enumerated_documents": total,
-        "enumeration": f"all documents of 1..{n} lines over a {len(ALPHABET)}-shape line alphabet x {{with, without}} final newline x {len(ENUM_CFGS)} configurations (complete)",
+        "enumerated_documents": total + total_inline,
+        "enumeration": f"all documents of 1..{n} lines over a {len(ALPHABET)}-shape line alphabet ({total}) and all concatenations of 1..{m} tokens over a {len(INLINE_ALPHABET)}-token inline alphabet ({total_inline}), each x {{with, without}} final newline x {len(ENUM_CFGS)} configurations (complete)",
         "exhaustive_subspace": True,
     }
 
